@@ -23,11 +23,18 @@ type Atom struct {
 	P   string `json:"p"`
 }
 
+// Dyn is one dynamic (global-only) privilege an account holds, with its OWN grant-option flag.
+type Dyn struct {
+	P   string `json:"p"`
+	Wgo bool   `json:"wgo"`
+}
+
 type AcctSt struct {
 	A      string `json:"a"`
 	Locked bool   `json:"locked"`
 	Pw     string `json:"pw"`
 	G      []Atom `json:"g"`
+	D      []Dyn  `json:"d"`
 }
 
 type Edge struct {
@@ -53,6 +60,7 @@ type Act struct {
 	Ps   []string `json:"ps,omitempty"`
 	Pw   string   `json:"pw,omitempty"`
 	Adm  bool     `json:"adm"`
+	Wgo  bool     `json:"wgo"`
 	M    string   `json:"m,omitempty"`
 }
 
@@ -74,8 +82,35 @@ type Row struct {
 }
 
 type GrantsOf struct {
-	A string   `json:"a"`
-	G []string `json:"g"`
+	A  string   `json:"a"`
+	G  []string `json:"g"`
+	Sd []Dyn    `json:"sd"` // the dynamic privileges named by the lines of G (see shownDyn)
+}
+
+// the dynamic privileges the engine accepts in GRANT / REVOKE (plan.Privilege.IsValidDynamic)
+var dynNames = []string{"CLONE_ADMIN", "REPLICATION_SLAVE_ADMIN"}
+
+// shownDyn reads the dynamic privileges off SHOW GRANTS lines: "GRANT <names> ON *.* TO <account>
+// [WITH GRANT OPTION]" where one of the names is a dynamic privilege; every name of such a line gets
+// the line's flag (names only; no semantics here).
+func shownDyn(lines []string) []Dyn {
+	out := []Dyn{}
+	for _, ln := range lines {
+		i := strings.Index(ln, " ON *.* TO ")
+		if !strings.HasPrefix(ln, "GRANT ") || i < 0 {
+			continue
+		}
+		wgo := strings.HasSuffix(ln, " WITH GRANT OPTION")
+		for _, n := range strings.Split(ln[len("GRANT "):i], ", ") {
+			for _, d := range dynNames {
+				if n == d {
+					out = append(out, Dyn{P: n, Wgo: wgo})
+				}
+			}
+		}
+	}
+	sort.Slice(out, func(i, j int) bool { return fmt.Sprint(out[i]) < fmt.Sprint(out[j]) })
+	return out
 }
 
 type Event struct {
@@ -178,6 +213,14 @@ func (v *Vocab) render(a Act) (string, string) {
 			return admin, q
 		}
 		return admin, fmt.Sprintf("REVOKE %s ON %s FROM %s", strings.Join(ps, ", "), obj(a.Db, a.Tbl), v.acct(a.A))
+	case "GrantDyn":
+		q := fmt.Sprintf("GRANT %s ON *.* TO %s", strings.Join(a.Ps, ", "), v.acct(a.A))
+		if a.Wgo {
+			q += " WITH GRANT OPTION"
+		}
+		return admin, q
+	case "RevokeDyn":
+		return admin, fmt.Sprintf("REVOKE %s ON *.* FROM %s", strings.Join(a.Ps, ", "), v.acct(a.A))
 	case "GrantRole":
 		q := fmt.Sprintf("GRANT %s TO %s", v.acct(a.R), v.acct(a.A))
 		if a.Adm {
@@ -286,6 +329,15 @@ func (w *World) materialise(pre St) {
 			w.F.Must(admin, fmt.Sprintf("GRANT %s ON %s TO %s", g.P, obj(g.Db, g.Tbl), w.V.acct(a.A)))
 		}
 	}
+	for _, a := range pre.Accts {
+		for _, d := range a.D {
+			q := fmt.Sprintf("GRANT %s ON *.* TO %s", d.P, w.V.acct(a.A))
+			if d.Wgo {
+				q += " WITH GRANT OPTION" // (the static global GRANT OPTION this implies is part of pre)
+			}
+			w.F.Must(admin, q)
+		}
+	}
 	for _, e := range pre.Edges {
 		q := fmt.Sprintf("GRANT %s TO %s", w.V.acct(e.R), w.V.acct(e.To))
 		if e.Adm {
@@ -318,7 +370,13 @@ func (w *World) project() *St {
 		if u.Host == "localhost" && (u.User == admin || u.User == bystander || u.User == "root") {
 			return
 		}
-		a := AcctSt{A: name(u.User, u.Host), Locked: u.Locked, G: []Atom{}}
+		a := AcctSt{A: name(u.User, u.Host), Locked: u.Locked, G: []Atom{}, D: []Dyn{}}
+		for _, wgo := range []bool{false, true} {
+			for _, p := range u.PrivilegeSet.ToSliceDynamic(wgo) {
+				a.D = append(a.D, Dyn{P: p, Wgo: wgo})
+			}
+		}
+		sort.Slice(a.D, func(i, j int) bool { return fmt.Sprint(a.D[i]) < fmt.Sprint(a.D[j]) })
 		switch u.AuthString {
 		case "":
 			a.Pw = "none"
@@ -374,6 +432,7 @@ func (w *World) showGrants() []GrantsOf {
 			g.G = append(g.G, row[0])
 		}
 		sort.Strings(g.G)
+		g.Sd = shownDyn(g.G)
 		out = append(out, g)
 	}
 	return out
@@ -405,6 +464,9 @@ func (w *World) probes() []probe {
 		ps = append(ps, probe{cls: "CREATE", db: d, tbl: newTable, stmt: "CREATE TABLE " + d + "." + newTable + " (a INT PRIMARY KEY)",
 			undo: "DROP TABLE " + d + "." + newTable})
 	}
+	// STOP REPLICA needs the dynamic REPLICATION_SLAVE_ADMIN; the fixture has no replication controller, so
+	// a statement that passed the privilege check ends in that error (see matrix)
+	ps = append(ps, probe{cls: "REPLICA", db: "*", tbl: "*", stmt: "STOP REPLICA"})
 	ps = append(ps, probe{cls: "CREATEUSER", db: "*", tbl: "*", stmt: "CREATE USER '" + probeUser + "'@'localhost'", undo: "DROP USER '" + probeUser + "'@'localhost'"})
 	for _, r := range w.V.Roles {
 		ps = append(ps, probe{cls: "GRANTROLE", db: r, tbl: "", stmt: "GRANT '" + r + "' TO '" + bystander + "'@'localhost'",
@@ -437,6 +499,13 @@ func (w *World) matrix(classes map[string]bool) []Row {
 				}
 			case "denied":
 				row.Out = "deny"
+			case "error":
+				if p.cls == "REPLICA" && strings.Contains(r.Msg, "no replication controller available") {
+					row.Out = "allow" // authorised; there is nothing to stop in this fixture
+					break
+				}
+				row.Out = r.Kind
+				row.Msg = msgClass(r.Msg)
 			default:
 				row.Out = r.Kind
 				row.Msg = msgClass(r.Msg)
@@ -548,6 +617,14 @@ func replay(v *Vocab, o replayOpts) {
 			w = newWorld(v)
 			w.materialise(tr.Pre)
 			pre := tr.Pre
+			for i := range pre.Accts { // records written before the model had dynamic privileges
+				if pre.Accts[i].D == nil {
+					pre.Accts[i].D = []Dyn{}
+				}
+				if pre.Accts[i].G == nil {
+					pre.Accts[i].G = []Atom{}
+				}
+			}
 			wr.Write(Event{Ev: "reset", H: h, St: &pre})
 		}
 		lastStep = tr.Step
